@@ -112,6 +112,70 @@ def _opened(pid):
     return [k for k in vlib.open_findings(pid) if k.get("id") == FINDING and k["id"] not in assume]
 
 
+
+POOL_FILES = ["z/Pool.tla", "z/MC_Pool.cfg", "z/SIM_Pool.cfg", "z/TracePool.tla", "z/TracePool.cfg"]
+
+
+def pool_stage(ctx, pid):
+    """Beyond the listed property: z.AllocatorPool (the way allocators are recycled: Return = TrimTo + park, Get =
+    take + Reset).  Pool.tla is model-checked (safety + liveness), its behaviours and seeded random histories are
+    driven through the real pool on a fake clock and TracePool.tla compares every step with the design model.
+    Everything it finds is conformance drift (reported, never a verdict)."""
+    cfg = open(os.path.join(vlib.SPEC, "z/MC_Pool.cfg")).read()
+    if not ctx.quick():
+        cfg = cfg.replace("Clients = {1, 2}", "Clients = {1, 2, 3}").replace("MaxIds = 4", "MaxIds = 5").replace("MaxOps = 7", "MaxOps = 8")
+    mc = vlib.tlc(ctx, POOL_FILES, "Pool", cfg, name="pool-mc", workers=4, timeout=1200)
+    if not mc.ok:
+        log("CONFORMANCE-DRIFT property=%s design spec Pool.tla did not pass TLC: %s" % (pid, mc.violated or mc.error))
+        ctx.drift += 1
+        return None
+    sim = vlib.tlc(ctx, POOL_FILES, "Pool", "SIM_Pool.cfg", name="pool-sim", workers=1, timeout=600,
+                   simulate={"num": ctx.pick(150, 2000), "depth": 45, "file": "beh"}, seed=ctx.seed * 17 + 3)
+    scen = []
+    if sim.ok:
+        for fn in vlib.list_behaviour_files(sim.dir, "beh"):
+            ops = []
+            for st in vlib.parse_behaviour_file(fn, want_states=False):
+                a, args = st["action"], st["args"]
+                if a == "Get":
+                    ops.append({"op": "Get", "c": args[0]})
+                elif a == "Return":
+                    ops.append({"op": "Return", "c": args[0], "a": args[1]})
+                elif a == "Tick":
+                    ops.append({"op": "Tick"})
+                elif a == "ReleaseCall":
+                    ops.append({"op": "Release"})
+            if ops:
+                scen.append({"cap": 2, "ops": ops})
+    inp = os.path.join(ctx.scratch, "pool_input.json")
+    with open(inp, "w") as f:
+        json.dump(scen, f)
+    rc, out, d = vlib.go_test(ctx, "./z", {
+        "z/verif_trace_test.go": ("common/vtrace_test.go.txt", "z"),
+        "z/verif_pool_test.go": "z/pool_test.go.txt",
+    }, "^TestVerifPool$", env={"VERIF_INPUT": inp, "VERIF_RANDOM": ctx.pick(100, 2000)}, timeout=900, name="go-pool")
+    tp = os.path.join(d, "pool.ndjson")
+    sp = os.path.join(d, "pool.summary.json")
+    if rc != 0 or not os.path.exists(sp):
+        log("CONFORMANCE-DRIFT property=%s the pool driver failed (rc=%s): %s" % (pid, rc, out[-600:].replace("\n", " | ")))
+        ctx.drift += 1
+        return None
+    summ = json.load(open(sp))
+    vd = ctx.sub("pool-validate")
+    shutil.copy(tp, os.path.join(vd, "trace.ndjson"))
+    r = vlib.tlc(ctx, POOL_FILES, "TracePool", "TracePool.cfg", workers=1, timeout=900, workdir=vd)
+    if not r.ok:
+        log("NOTE property=%s pool trace validation did not run: %s" % (pid, r.error or r.violated))
+        return None
+    _, drift = vlib.obs_result(r.out)
+    if drift:
+        ctx.drift += len(drift)
+        first = sorted(drift, key=lambda b: b["at"])[0]
+        log("CONFORMANCE-DRIFT property=%s %s (pool trace %s, line %s); %d event(s)" %
+            (pid, first["why"], first["trace"], first["at"], len(drift)))
+    return {"pool_states": mc.distinct, "pool_behaviours": len(scen), "pool_traces": summ["traces"],
+            "pool_events": summ["events"], "pool_drift": len(drift)}
+
 def run(ctx, pid):
     if os.environ.get("VERIF_REPLAY"):
         return _replay(ctx, pid, os.environ["VERIF_REPLAY"])
@@ -253,6 +317,14 @@ def run(ctx, pid):
                 shutil.copyfileobj(g, f)
     bad, drift, nlines, ntraces = validate(ctx, merged, fixed_model)
     judge(ctx, pid, merged, bad, drift, opened)
+
+    try:
+        pool_info = pool_stage(ctx, pid)
+    except Exception as e:   # an extra beyond the property: its tool failures never decide C12
+        pool_info = None
+        log("NOTE property=%s pool stage did not complete: %s" % (pid, str(e)[:400]))
+    if pool_info:
+        ctx.notes.append("z.AllocatorPool (beyond the property): %s" % json.dumps(pool_info))
 
     samples = [json.loads(x) for x in open(merged).read(20000).split("\n")[:8] if x.strip().endswith("}")]
     exh = [r for k, r in res.items() if r.ok]
